@@ -43,6 +43,7 @@ class SMCSampler(MCMCSampler):
             parameters=parameters,
             preconditioning_transform=preconditioning_transform,
         )
+        self._user_rng = rng
         self.rng = rng or np.random.default_rng()
         self._adapative_target_efficiency = False
 
